@@ -25,14 +25,9 @@ func (e EmptySet) IsTrue() bool {
 }
 
 func (e EmptySet) Less(v Value) bool {
-	if e == v {
-		return false
-	}
-	switch v.(type) {
-	case Number, Tuple:
-		return false
-	}
-	return true
+	// All empty sets are equal; order against everything else by kind, like
+	// every other value does.
+	return e.Kind() < v.Kind()
 }
 
 func (e EmptySet) Negate() Value {
